@@ -115,12 +115,15 @@ def get_plan(lane, base, tier, idx):
     return lines[0], lines[1:]
 
 
-def exec_plan(swarm, ops, timeout=300):
+def exec_plan(swarm, ops, timeout=300, alarm=None):
     fd, path = tempfile.mkstemp(prefix="nixsim-plan-", suffix=".txt", dir="/dev/shm")
     with os.fdopen(fd, "w") as f:
         f.write(swarm + "\n" + "\n".join(ops) + "\n")
     try:
-        r = subprocess.run([BIN, "exec", path], stdout=subprocess.PIPE, stderr=subprocess.DEVNULL, text=True, timeout=timeout)
+        env = dict(os.environ)
+        if alarm:
+            env["NIXSIM_ALARM"] = str(alarm)
+        r = subprocess.run([BIN, "exec", path], stdout=subprocess.PIPE, stderr=subprocess.DEVNULL, text=True, timeout=timeout, env=env)
         for line in r.stdout.split("\n"):
             if line.startswith("{"):
                 return json.loads(line)
@@ -279,6 +282,21 @@ def check(prop, tier):
         rrec.setdefault("lane_idx", rrec["idx"])
         rrec["idx"] = i
     run_s = time.time() - t0
+    # ---- runs that hit the per-run time limit: executed again, alone, with a far longer limit; only a plan that still does not
+    # finish is a hang (wall-clock time is the one thing a seed does not determine, so it must never decide a verdict by itself)
+    slow = 0
+    for i, r in list(records.items()):
+        if r["verdict"] in ("viol", "foreign") and r.get("oracle", "").endswith(".crash") and r.get("detail", "").startswith("hang"):
+            sw, ops = get_plan(lane_of[i], seed, tier, r["lane_idx"])
+            again = exec_plan(sw, ops, timeout=1500, alarm=1200)
+            if not (again.get("oracle", "").endswith(".crash") and again.get("detail", "").startswith("hang")):
+                slow += 1
+                again["idx"] = i
+                again["lane_idx"] = r["lane_idx"]
+                again.setdefault("cnt", {})
+                again.setdefault("shape", r.get("shape"))
+                again.setdefault("nops", r.get("nops", 0))
+                records[i] = again
     known = load_known()
     cnt, shapes, states, triples, finals, verdicts = aggregate(prop, lane, records)
 
@@ -362,7 +380,7 @@ def check(prop, tier):
         "counters": {k: v for k, v in cnt.items() if not k.startswith("op.")},
         "sim_seconds": cnt.get("sim_seconds", 0), "runs_per_hour": int(done / max(run_s, 1e-6) * 3600), "seeds_per_hour": int(done / max(run_s, 1e-6) * 3600),
         "distinct_states_lower_bound": len(states), "distinct_final_states": len(finals), "distinct_op_outcome_context_triples": len(triples),
-        "zero_probes": zero, "components_real": COMPONENTS_REAL, "components_stubbed": COMPONENTS_STUB,
+        "runs_over_time_limit_reexecuted_alone": slow, "zero_probes": zero, "components_real": COMPONENTS_REAL, "components_stubbed": COMPONENTS_STUB,
         "build_s": round(build_s, 1), "run_s": round(run_s, 1), "workers": workers, "sanitizers": "gcc -fsanitize=address,undefined (-fno-sanitize=vptr), NDEBUG" if SAN == "asan" else SAN,
         "exhaustive": False,
     }
